@@ -47,7 +47,7 @@ class TermGen:
 
     def __init__(self, num_locs, small_locs=(), fn_locs=None, comp=(), lits=None,
                  ops=None, builtins=("abs", "round", "floor", "ceil", "trunc"),
-                 unary=("-", "+"), allow_eq=False, allow_divmod=False, p_lit=0.3, comp_one_in=6):
+                 unary=("-", "+"), allow_eq=False, allow_divmod=False, p_lit=0.3, comp_one_in=6, cont_locs=()):
         self.num_locs = list(num_locs)
         self.small_locs = list(small_locs)
         self.fn_locs = dict(fn_locs or {})
@@ -59,6 +59,7 @@ class TermGen:
         self.allow_eq = allow_eq
         self.allow_divmod = allow_divmod
         self.p_lit = p_lit
+        self.cont_locs = list(cont_locs)    # containers a term may read AS A WHOLE through F['tot'](container)
         self.comp_one_in = comp_one_in      # a ref leaf is a computed-key access once in this many draws
 
     # -- leaves
@@ -113,6 +114,10 @@ class TermGen:
             return ["bi", name, a, []]
         if kind == "call":
             fname = draw(st.sampled_from(sorted(self.fn_locs)))
+            if fname == "tot":
+                if self.cont_locs:
+                    return ["call", self.fn_locs["tot"], [draw(st.sampled_from(self.cont_locs))], []]
+                fname = "sq" if "sq" in self.fn_locs else sorted(set(self.fn_locs) - {"tot"})[0]
             f = self.fn_locs[fname]
 
             def arg():
